@@ -2,7 +2,8 @@
 import corelib
 
 META = {
-    "technique": "TLC model checking of NsqdAbs (custody of every message copy); traces of a real in-process nsqd "
+    "technique": "TLC (NsqdCore) interleavings of the timeout scan with FIN / REQ / TOUCH / delivery forced on the real daemon; "
+                 "TLC model checking of NsqdAbs (custody of every message copy); traces of a real in-process nsqd "
                  "(verif hooks + client-side observations, randomized concurrent publishers/consumers, queue "
                  "configuration lattice) validated against NsqdAbs by TLC, with a drain-to-empty end condition; TLC (NsqdTopic: channelMap vs the pump's cached channel list, handshakes, PutMessage's read lock) with every interleaving of publish / channel creation / deletion and the pump's copy steps forced on the real daemon (gated replay)",
     "design_ref": "5/C01",
@@ -12,6 +13,10 @@ META = {
 def run(ctx):
     import nsqdmc
     nsqdmc.model_check(ctx)
+    import pairs
+    # binding A' at the channel level: whatever the timeout scan interleaves with, a message that is in flight keeps a
+    # deadline (it will come back) -- incl. two messages due in one scan while an answer for the first arrives
+    pairs.run_pairs(ctx, "C01", pairs=[p for p in pairs.all_pairs() if "SCAN" in p and "EMPTY" not in p], sample=None if not ctx.quick else 120)
     import tpairs
     # binding A' at the topic level: NsqdTopic's interleavings of publish / channel creation / channel deletion with the
     # message pump's copy steps, forced on the real daemon: every acknowledged message reaches every channel known then
